@@ -28,6 +28,7 @@ IsotxsNuclideIO = repo("armi.nuclearDataIO.cccc.isotxs:_IsotxsNuclideIO")
 GamisoIO = repo("armi.nuclearDataIO.cccc.gamiso:_GamisoIO")
 GamisoNuclideIO = repo("armi.nuclearDataIO.cccc.gamiso:_GamisoNuclideIO")
 IsotxsLibrary = repo("armi.nuclearDataIO.xsLibraries:IsotxsLibrary")
+BinaryRecordReader = repo("armi.nuclearDataIO.cccc.cccc:BinaryRecordReader")
 XSNuclide = repo("armi.nuclearDataIO.xsNuclides:XSNuclide")
 NuclideMetadata = repo("armi.nuclearDataIO.nuclearFileMetadata:NuclideMetadata")
 
@@ -176,3 +177,336 @@ def isotxs_file_records_follow_the_header(niso: int, ichist: int, gamiso: bool, 
     assert lib.nuclideLabels == LABELS[:niso], "the library holds exactly the isotopes of the file, in file order"
     for k in range(niso):
         assert same(lib[LABELS[k]], made[k])
+
+
+# ----------------------------------------------------------------------------- ISOTXS / GAMISO: whole library through the real records
+class Mat:
+    """stand-in for a scipy.sparse matrix, held dense: toarray(), eliminate_zeros()"""
+
+    def __init__(self, a):
+        self.a = a
+
+    def toarray(self):
+        return self.a
+
+    def eliminate_zeros(self):
+        return None
+
+
+if NATIVE:
+    import scipy.sparse as DenseSparse
+
+    def matrix(rows):
+        return DenseSparse.csr_matrix(np.array(rows))
+else:
+    class DenseSparse:
+        """stand-in for the module scipy.sparse as used by _rw7DRecord: csr_matrix((data, indices, indptr), shape) is
+        the matrix with data[k] added at (row r, column indices[k]) for indptr[r] <= k < indptr[r + 1]; an index
+        pointer whose length is not rows + 1 is refused (ValueError) as scipy does"""
+
+        @staticmethod
+        def csr_matrix(triple, shape):
+            data, indices, indptr = triple
+            if len(indptr) != shape[0] + 1:
+                raise ValueError("index pointer size %d should be %d" % (len(indptr), shape[0] + 1))
+            rows = [[0.0 for c in range(shape[1])] for r in range(shape[0])]
+            for r in range(shape[0]):
+                for k in range(indptr[r], indptr[r + 1]):
+                    rows[r][indices[k]] = rows[r][indices[k]] + data[k]
+            return Mat(np.array(rows))
+
+    def matrix(rows):
+        return Mat(np.array(rows))
+
+
+OVERRIDES = {"armi.nuclearDataIO.cccc.isotxs:sparse": "DenseSparse"}
+
+# band layouts (JJ, JBAND) per group for 1 and 2 groups: in-group only / with down-scatter / with up- and down-scatter
+BANDS = {1: [[(1, 1)]], 2: [[(1, 1), (1, 1)], [(1, 1), (1, 2)], [(2, 2), (1, 2)]]}
+SCAT_IDS = [100, 200, 300]            # elastic P0, inelastic, n2n (IDSCT)
+SCAT_ATTR = ["elasticScatter", "inelasticScatter", "n2nScatter"]
+FILE_KEYS = ["label", "fileId", "numGroups", "maxUpScatterGroups", "maxDownScatterGroups", "maxScatteringOrder", "fileWideChiFlag",
+             "maxScatteringBlocks", "subblockingControl", "libraryLabel"]
+NUC_STR = ["nuclideId", "libName", "isoIdent"]
+NUC_REAL = ["amass", "efiss", "ecapt", "temp", "sigPot", "adens"]
+NUC_INT = ["classif", "chiFlag", "fisFlag", "nalph", "np", "n2n", "nd", "nt", "ltot", "ltrn", "strpd"]
+VECTORS = ["nGamma", "fission", "neutronsPerFission", "chi", "nalph", "np", "n2n", "nd", "nt"]
+
+
+def in_band(g, h, band):
+    jj, jb = band[g]
+    return g + jj - jb <= h and h < g + jj
+
+
+def xs_library(gamiso, ng, niso, ichist, nscmax, layout, fis, x, w):
+    """a library as a reader leaves it / a user builds it: niso isotopes x ng groups, nscmax scattering blocks of order
+    1 each with the band layout `layout`, one sub-block; isotope k is fissile iff fis[k]; the first fissile isotope uses
+    the file-wide chi vector if there is one (ICHIST = 1), else its own; symbolic reals from x (file) and w (isotopes)"""
+    lib = IsotxsLibrary()
+    meta = lib.gamisoMetadata if gamiso else lib.isotxsMetadata
+    vals = {"label": "ISOTXS", "fileId": 1, "numGroups": ng, "maxUpScatterGroups": 1, "maxDownScatterGroups": 1,
+            "maxScatteringOrder": 1, "fileWideChiFlag": ichist, "maxScatteringBlocks": nscmax, "subblockingControl": 1,
+            "libraryLabel": "LIB"}
+    for key in vals:
+        meta[key] = vals[key]
+    meta["minimumNeutronEnergy"] = x[0]
+    if ichist == 1:
+        meta["chi"] = np.array([x[1], x[2]][:ng])
+    if gamiso:
+        meta["gammaVelocity..NOT"] = np.array([x[3], x[4]][:ng])
+        lib.gammaEnergyUpperBounds = np.array([x[5], x[6]][:ng])
+    else:
+        lib.neutronVelocity = np.array([x[3], x[4]][:ng])
+        lib.neutronEnergyUpperBounds = np.array([x[5], x[6]][:ng])
+    band = BANDS[ng][layout]
+    for k in range(niso):
+        nuc = XSNuclide(lib, LABELS[k])
+        lib[LABELS[k]] = nuc
+        nm = nuc.gamisoMetadata if gamiso else nuc.isotxsMetadata
+        mic = nuc.gammaXS if gamiso else nuc.micros
+        for key in NUC_STR:
+            nm[key] = LABELS[k][:-2]
+        for i in range(len(NUC_REAL)):
+            nm[NUC_REAL[i]] = w[k][i]
+        chiFlag = 1 if (fis[k] and (ichist != 1 or k > 0)) else 0
+        flags = {"classif": 2, "chiFlag": chiFlag, "fisFlag": 1 if fis[k] else 0, "nalph": 1, "np": 0, "n2n": 1, "nd": 0, "nt": 0, "ltot": 1,
+                 "ltrn": 1, "strpd": k}
+        for key in flags:
+            nm[key] = flags[key]
+        nm["scatFlag"] = np.array(SCAT_IDS[:nscmax])
+        nm["ords"] = np.array([1, 0, 1][:nscmax])        # the second block is announced as absent (LORD = 0)
+        nm["jband"] = {(g, n): band[g][1] for n in range(nscmax) for g in range(ng)}
+        nm["jj"] = {(g, n): band[g][0] for n in range(nscmax) for g in range(ng)}
+        mic.transport = np.array([[w[k][6]], [w[k][7]]][:ng])
+        mic.total = np.array([[w[k][8]], [w[k][9]]][:ng])
+        mic.nGamma = np.array([w[k][10], w[k][11]][:ng])
+        if fis[k]:
+            mic.fission = np.array([w[k][12], w[k][13]][:ng])
+            mic.neutronsPerFission = np.array([w[k][14], w[k][15]][:ng])
+            mic.chi = np.array([w[k][16], w[k][17]][:ng]) if chiFlag == 1 else meta["chi"]
+        mic.nalph = np.array([w[k][18], w[k][19]][:ng])
+        mic.n2n = np.array([w[k][20], w[k][21]][:ng])
+        if k > 0:
+            mic.strpd = np.array([[w[k][22]], [w[k][23]]][:ng])
+        for n in range(nscmax):
+            if n != 1:
+                rows = [[(w[k][24 + 4 * (n // 2) + 2 * g + h] if in_band(g, h, band) else 0.0) for h in range(ng)] for g in range(ng)]
+                setattr(mic, SCAT_ATTR[n], matrix(rows))
+    return lib, vals
+
+
+def xs_io(gamiso, mode, st, lib):
+    cls = GamisoIO if gamiso else IsotxsIO
+    meta = lib.gamisoMetadata if gamiso else lib.isotxsMetadata
+    if "r" in mode:
+        get = lambda label: XSNuclide(lib, label)
+    else:
+        get = lambda label: lib[label]
+    return new(cls, _fileName="ISOTXS", _fileMode=mode, _stream=st, _lib=lib, _metadata=meta, _getNuclide=get)
+
+
+def records_of(niso, nscmax):
+    return 3 + niso * (2 + len([n for n in range(nscmax) if n != 1]))
+
+
+def record_sizes(ng, niso, ichist, nscmax, layout, fis):
+    """payload length of every record in file order, from the file structure: 8-character names, 4-byte integers and
+    single-precision reals; 4D: 3 names, 6 reals, 11 integers, IDSCT and LORD per block, JBAND and IJJ per block and group;
+    5D: transport, total, n-gamma [fission, nu: fissile] [chi: ICHI = 1] n-alpha, n2n [STRPD blocks]; 7D: the band of every
+    group, once per order"""
+    band = BANDS[ng][layout]
+    sizes = [24 + 4, 4 * 8, 96 + 8 * niso + 4 * ((ng if ichist == 1 else 0) + 2 * ng + 1) + 4 * niso]
+    for k in range(niso):
+        ichi = 1 if (fis[k] and (ichist != 1 or k > 0)) else 0
+        sizes.append(3 * 8 + 6 * 4 + 11 * 4 + 2 * 4 * nscmax + 2 * 4 * nscmax * ng)
+        sizes.append(4 * ng * (3 + (2 if fis[k] else 0) + ichi + 2 + k))
+        for n in range(nscmax):
+            if n != 1:
+                sizes.append(4 * sum([band[g][1] for g in range(ng)]))
+    return sizes
+
+
+def check_sizes(st, sizes):
+    assert st.nwrites() == 3 * len(sizes), "exactly the records the flags announce"
+    for r in range(len(sizes)):
+        (count,) = struct.unpack("i", st.written(3 * r))
+        assert count == sizes[r], "record length as the file structure prescribes"
+
+
+def read_loca(st, ng, niso, ichist):
+    """the isotope record offsets LOCA(I) of the 2D record, read field by field with a real BinaryRecordReader"""
+    st.seek(0)
+    with BinaryRecordReader(st) as r:
+        r.rwString(None, 24)
+        r.rwInt(None)
+    with BinaryRecordReader(st) as r:
+        r.rwList(None, "int", 8)
+    with BinaryRecordReader(st) as r:
+        r.rwString(None, 96)
+        r.rwList(None, "string", niso, 8)
+        r.rwList(None, "float", (ng if ichist == 1 else 0) + 2 * ng + 1)
+        loca = r.rwList(None, "int", niso)
+    return loca
+
+
+def same_array(a, b):
+    fa, fb = a.flatten(), b.flatten()
+    return a.shape == b.shape and all([eq(fa[i], fb[i]) for i in range(a.size)])
+
+
+def check_library(back, lib, vals, gamiso, ng, niso, nscmax, fis, x):
+    bm, m = (back.gamisoMetadata, lib.gamisoMetadata) if gamiso else (back.isotxsMetadata, lib.isotxsMetadata)
+    for key in FILE_KEYS:
+        assert bm[key] == vals[key], "file control entry read back"
+    assert eq(bm["minimumNeutronEnergy"], x[0])
+    if vals["fileWideChiFlag"] == 1:
+        assert same_array(bm["chi"], m["chi"]), "file-wide chi read back"
+    else:
+        assert bm["chi"] is None
+    if gamiso:
+        assert same_array(bm["gammaVelocity..NOT"], m["gammaVelocity..NOT"]) and same_array(back.gammaEnergyUpperBounds, lib.gammaEnergyUpperBounds)
+    else:
+        assert same_array(back.neutronVelocity, lib.neutronVelocity) and same_array(back.neutronEnergyUpperBounds, lib.neutronEnergyUpperBounds)
+    assert back.nuclideLabels == LABELS[:niso], "the isotopes of the file, in file order"
+    for k in range(niso):
+        b, a = back[LABELS[k]], lib[LABELS[k]]
+        bn, an = (b.gamisoMetadata, a.gamisoMetadata) if gamiso else (b.isotxsMetadata, a.isotxsMetadata)
+        bx, ax = (b.gammaXS, a.gammaXS) if gamiso else (b.micros, a.micros)
+        for key in NUC_STR + NUC_INT:
+            assert bn[key] == an[key], "isotope control entry read back"
+        for key in NUC_REAL:
+            assert eq(bn[key], an[key]), "isotope constant read back"
+        assert list(bn["scatFlag"]) == list(an["scatFlag"]) and list(bn["ords"]) == list(an["ords"])
+        assert bn["jband"] == an["jband"] and bn["jj"] == an["jj"], "band widths and in-group positions read back"
+        assert same_array(bx.transport, ax.transport) and same_array(bx.total, ax.total)
+        for name in VECTORS:
+            if ax[name] is not None:
+                assert same_array(bx[name], ax[name]), "principal cross section read back"
+            else:
+                assert bx[name].shape == (ng,) and all([eq(v, 0.0) for v in bx[name]]), "a cross section the isotope does not have reads as zeros"
+        if k > 0:
+            assert same_array(bx.strpd, ax.strpd)
+        for n in range(nscmax):
+            if n != 1:
+                assert same_array(bx[SCAT_ATTR[n]].toarray(), ax[SCAT_ATTR[n]].toarray()), "scattering matrix read back"
+            else:
+                assert bx[SCAT_ATTR[n]] is None, "a block announced as absent is not read"
+        for n in range(nscmax, 3):
+            assert bx[SCAT_ATTR[n]] is None
+
+
+G_XS = {"ng": (1, 2), "niso": (1, 2), "ichist": (0, 1), "sc": (0, 3), "fp": (0, 2), "gamiso": [False, True]}
+for _k in range(7):
+    G_XS["x%d" % _k] = F32
+for _k in range(32):
+    G_XS["w%d" % _k] = F32
+SCAT_CFG = [(0, 0), (1, 0), (2, 1), (3, 2)]   # (NSCMAX, band layout; layout 0 when there is one group only)
+FISSILE = [[False, False], [True, False], [True, True]]
+
+
+@lemma(gen=G_XS, stubs=STUBS, overrides=OVERRIDES)
+def isotxs_library_round_trip(ng: int, niso: int, ichist: int, sc: int, fp: int,
+                              x0: float, x1: float, x2: float, x3: float, x4: float, x5: float, x6: float,
+                              w0: float, w1: float, w2: float, w3: float, w4: float, w5: float, w6: float, w7: float,
+                              w8: float, w9: float, w10: float, w11: float, w12: float, w13: float, w14: float, w15: float,
+                              w16: float, w17: float, w18: float, w19: float, w20: float, w21: float, w22: float, w23: float,
+                              w24: float, w25: float, w26: float, w27: float, w28: float, w29: float, w30: float, w31: float):
+    """a whole ISOTXS library written by the real IsotxsIO.readWrite (1D, 2D, and per isotope 4D, 5D, 7D through the real
+    _IsotxsNuclideIO) and read back into an empty IsotxsLibrary: the number of records is the one the flags announce; the
+    isotope offsets LOCA(I) of the 2D record count the records actually written;
+    every file control entry, the group structure, the file-wide chi (ICHIST = 1), and per isotope every 4D entry, band
+    layout, principal cross section (fission data iff fissile, chi from the isotope or the file), the STRPD block and
+    every announced scattering matrix are read back; absent data read as zeros / None.
+    Enumerated: 1..2 groups x 1..2 isotopes x ICHIST 0..1 x (NSCMAX 0 / 1 in-group band / 2 with down-scatter, block 2 with
+    LORD = 0 / 3 with up- and down-scatter) x fissile pattern (none / first / both); LORD <= 1 and NSBLOK = 1 (the other
+    layouts and the file label are in contracts/pending/C09_xsfiles_finding.py); all reals symbolic (the second isotope
+    carries the first one's values + 1)."""
+    ng, niso, ichist = choose(ng, 1, 2), choose(niso, 1, 2), choose(ichist, 0, 1)
+    nscmax, layout = SCAT_CFG[choose(sc, 0, 3)]
+    layout = layout if ng == 2 else 0
+    fis = FISSILE[choose(fp, 0, 2)]
+    x = [x0, x1, x2, x3, x4, x5, x6]
+    w = [w0, w1, w2, w3, w4, w5, w6, w7, w8, w9, w10, w11, w12, w13, w14, w15, w16, w17, w18, w19, w20, w21, w22, w23, w24, w25, w26, w27, w28, w29, w30, w31]
+    lib, vals = xs_library(False, ng, niso, ichist, nscmax, layout, fis, x, [w, [v + 1.0 for v in w]])
+    st = memstream()
+    xs_io(False, "wb", st, lib).readWrite()
+    assert st.nwrites() == 3 * records_of(niso, nscmax), "exactly the records the flags announce"
+    check_sizes(st, record_sizes(ng, niso, ichist, nscmax, layout, fis))
+    loca = read_loca(st, ng, niso, ichist)
+    for k in range(niso):
+        assert loca[k] == k * (records_of(1, nscmax) - 3), "LOCA(I) = number of records before the records of isotope I"
+    st.seek(0)
+    back = IsotxsLibrary()
+    xs_io(False, "rb", st, back).readWrite()
+    # compared with a second library built from the same values (writing may not have changed the first; if it did, that shows here)
+    ref, vals = xs_library(False, ng, niso, ichist, nscmax, layout, fis, x, [w, [v + 1.0 for v in w]])
+    check_library(back, ref, vals, False, ng, niso, nscmax, fis, x)
+
+
+G_GAM = {"ng": (1, 2), "niso": (1, 2), "ichist": (0, 1), "sc": (0, 1), "fp": (0, 1)}
+for _k in range(7):
+    G_GAM["x%d" % _k] = F32
+for _k in range(32):
+    G_GAM["w%d" % _k] = F32
+
+
+@lemma(gen=G_GAM, stubs=STUBS, overrides=OVERRIDES)
+def gamiso_library_round_trip(ng: int, niso: int, ichist: int, sc: int, fp: int,
+                              x0: float, x1: float, x2: float, x3: float, x4: float, x5: float, x6: float,
+                              w0: float, w1: float, w2: float, w3: float, w4: float, w5: float, w6: float, w7: float,
+                              w8: float, w9: float, w10: float, w11: float, w12: float, w13: float, w14: float, w15: float,
+                              w16: float, w17: float, w18: float, w19: float, w20: float, w21: float, w22: float, w23: float,
+                              w24: float, w25: float, w26: float, w27: float, w28: float, w29: float, w30: float, w31: float):
+    """the same for GAMISO: the real _GamisoIO / _GamisoNuclideIO (gamma velocities and gamma group bounds in the 2D
+    record, data in gamisoMetadata / gammaXS): everything written is read back and nothing lands in the neutron data of
+    the library.  Enumerated: 1..2 groups x 1..2 isotopes x ICHIST 0..1 x NSCMAX in {0, 3 (up- and down-scatter)} x
+    fissile pattern (none / first); reals symbolic."""
+    ng, niso, ichist = choose(ng, 1, 2), choose(niso, 1, 2), choose(ichist, 0, 1)
+    nscmax, layout = SCAT_CFG[3 * choose(sc, 0, 1)]
+    layout = layout if ng == 2 else 0
+    fis = FISSILE[choose(fp, 0, 1)]
+    x = [x0, x1, x2, x3, x4, x5, x6]
+    w = [w0, w1, w2, w3, w4, w5, w6, w7, w8, w9, w10, w11, w12, w13, w14, w15, w16, w17, w18, w19, w20, w21, w22, w23, w24, w25, w26, w27, w28, w29, w30, w31]
+    lib, vals = xs_library(True, ng, niso, ichist, nscmax, layout, fis, x, [w, [v + 1.0 for v in w]])
+    st = memstream()
+    xs_io(True, "wb", st, lib).readWrite()
+    assert st.nwrites() == 3 * records_of(niso, nscmax), "exactly the records the flags announce"
+    check_sizes(st, record_sizes(ng, niso, ichist, nscmax, layout, fis))
+    st.seek(0)
+    back = IsotxsLibrary()
+    xs_io(True, "rb", st, back).readWrite()
+    ref, vals = xs_library(True, ng, niso, ichist, nscmax, layout, fis, x, [w, [v + 1.0 for v in w]])
+    check_library(back, ref, vals, True, ng, niso, nscmax, fis, x)
+    assert len(back.isotxsMetadata) == 0, "no neutron file data from a gamma file"
+    for k in range(niso):
+        assert len(back[LABELS[k]].isotxsMetadata) == 0 and back[LABELS[k]].micros.nGamma is None
+
+
+@lemma(gen=G_XS, stubs=STUBS, overrides=OVERRIDES)
+def isotxs_rewrite_of_what_was_read_is_the_same_file(ng: int, niso: int, ichist: int, sc: int, fp: int, gamiso: bool,
+                                                     x0: float, x1: float, x2: float, x3: float, x4: float, x5: float, x6: float,
+                                                     w0: float, w1: float, w2: float, w3: float, w4: float, w5: float, w6: float, w7: float,
+                                                     w8: float, w9: float, w10: float, w11: float, w12: float, w13: float, w14: float, w15: float,
+                                                     w16: float, w17: float, w18: float, w19: float, w20: float, w21: float, w22: float, w23: float,
+                                                     w24: float, w25: float, w26: float, w27: float, w28: float, w29: float, w30: float, w31: float):
+    """write(read(file)) == file for ISOTXS and GAMISO: the library read from a file and written again by the real code
+    produces the same sequence of stream writes (leading count, payload fields, trailing count of every record), field
+    by field equal bytes - including the banded, reversed scatter rows and the isotope offsets.  Same enumeration as
+    isotxs_library_round_trip, x ISOTXS / GAMISO."""
+    ng, niso, ichist = choose(ng, 1, 2), choose(niso, 1, 2), choose(ichist, 0, 1)
+    nscmax, layout = SCAT_CFG[choose(sc, 0, 3)]
+    layout = layout if ng == 2 else 0
+    fis = FISSILE[choose(fp, 0, 2)]
+    x = [x0, x1, x2, x3, x4, x5, x6]
+    w = [w0, w1, w2, w3, w4, w5, w6, w7, w8, w9, w10, w11, w12, w13, w14, w15, w16, w17, w18, w19, w20, w21, w22, w23, w24, w25, w26, w27, w28, w29, w30, w31]
+    lib, vals = xs_library(gamiso, ng, niso, ichist, nscmax, layout, fis, x, [w, [v + 1.0 for v in w]])
+    st = memstream()
+    xs_io(gamiso, "wb", st, lib).readWrite()
+    st.seek(0)
+    back = IsotxsLibrary()
+    xs_io(gamiso, "rb", st, back).readWrite()
+    st2 = memstream()
+    xs_io(gamiso, "wb", st2, back).readWrite()
+    assert st2.nwrites() == st.nwrites(), "same number of records"
+    for k in range(st.nwrites()):
+        assert st2.written(k) == st.written(k), "same bytes"
